@@ -207,6 +207,27 @@ def knownUC (c : Ctx) (x : String) : List (List Int × List Stmt) → Bool
   | (_, b) :: r => knownUL c x b || knownUC c x r
 end
 
+/-- known class of `defines`: the DO variable of a loop at or inside the node (deliberately discarded by `visit_Loop`) -/
+def KnownDefS (x : String) (s : Stmt) : Bool := (loopVarsS s).contains x
+def KnownDefL (x : String) (ss : List Stmt) : Bool := (loopVarsL ss).contains x
+
+mutual
+/-- the statements of a tree in pre-order (node numbering shared with the harness) -/
+def flatS : Stmt → List Stmt
+  | .doLoop v lo hi st body => .doLoop v lo hi st body :: flatL body
+  | .while cnd body => .while cnd body :: flatL body
+  | .ifte cnd t e => .ifte cnd t e :: (flatL t ++ flatL e)
+  | .select e cases d => .select e cases d :: (flatC cases ++ flatL d)
+  | .assoc b body => .assoc b body :: flatL body
+  | s => [s]
+def flatL : List Stmt → List Stmt
+  | [] => []
+  | s :: r => flatS s ++ flatL r
+def flatC : List (List Int × List Stmt) → List Stmt
+  | [] => []
+  | (_, b) :: r => flatL b ++ flatC r
+end
+
 /-- `NoMayKill` of the design: no variable at all is in the known class of the statement list -/
 def NoMayKill (c : Ctx) (ss : List Stmt) : Prop := ∀ x, knownUL c x ss = false
 
